@@ -105,6 +105,11 @@ class RenameAppLabel(BaseMutation):
                 for model_name in model_names
             ]
 
+        moved_model_names = set(
+            model_sig.model_name
+            for model_sig in model_sigs
+        )
+
         # Copy over the models.
         for model_sig in model_sigs:
             old_app_sig.remove_model_sig(model_sig.model_name)
@@ -123,9 +128,10 @@ class RenameAppLabel(BaseMutation):
             for cur_model_sig in cur_app_sig.model_sigs:
                 for cur_field_sig in cur_model_sig.field_sigs:
                     if cur_field_sig.related_model:
-                        parts = cur_field_sig.related_model.split('.', 1)[1]
+                        parts = cur_field_sig.related_model.split('.', 1)
 
-                        if parts[0] == old_app_label:
+                        if (parts[0] == old_app_label and
+                            parts[1] in moved_model_names):
                             cur_field_sig.related_model = \
                                 '%s.%s' % (new_app_label, parts[1])
 
